@@ -224,6 +224,24 @@ def record_cli_case(cid, seed, origin='random'):
             events.append({'a': 'concat', 'kind': 'seq', 'setlike': 'F', 'what': 'transform --split %s %s' % (spec, destfmt),
                            'a_': [x for x in rs['ABs.out.0'] if x != ''], 'b_': [x for x in rs['ABs.out.1'] if x != ''],
                            'ab': [x for x in rab['AB.out'] if x != '']})
+        # a decorated label that recurs from sentence to sentence, read with gf_split and then binarized: what
+        # the reader yields for the second sentence must not depend on what was done to the first one
+        def sent(sid, w):
+            return ('#BOS %d\n%s1\t\t\tNN\t--\t\tHD\t500\n%s2\t\t\tNN\t--\t\t--\t500\n%s3\t\t\tNN\t--\t\t--\t500\n'
+                    '%s4\t\t\tVB\t--\t\tHD\t501\n#500\t\t\tNP-1\t--\t\tOA\t501\n#501\t\t\tS=2\t--\t\t--\t0\n#EOS %d\n'
+                    % (sid, w, w, w, w, sid))
+        write('LA.export', sent(1, 'a'))
+        write('LB.export', sent(2, 'b'))
+        write('LAB.export', sent(1, 'a') + sent(2, 'b'))
+
+        def lconv(src, dest):
+            a = ['transform', src, dest, '--src-opts', 'gf_split', '--trans', 'negra_mark_heads', 'binarize',
+                 '--dest-format', 'export']
+            return cli_lines(a, tmp, [dest])
+        la, lb, lab_ = lconv('LA.export', 'LA.out'), lconv('LB.export', 'LB.out'), lconv('LAB.export', 'LAB.out')
+        events.append({'a': 'concat', 'kind': 'seq', 'setlike': 'F', 'what': 'gf_split + binarize, recurring decorated label',
+                       'a_': [x for x in la['LA.out'] if x != ''], 'b_': [x for x in lb['LB.out'] if x != ''],
+                       'ab': [x for x in lab_['LAB.out'] if x != '']})
         r2 = conv('AB.export', 'AB2.out', hs=str(rnd.randint(1, 999)))
         events.append({'a': 'repeat', 'setlike': 'F', 'what': 'transform ' + destfmt,
                        'out1': rab['AB.out'], 'out2': r2['AB2.out']})
